@@ -343,9 +343,11 @@ func writeReplay(rf *ReplayFile) string {
 	_ = os.MkdirAll(dir, 0o755)
 	// readable trace of the minimised run
 	h := sha256.Sum256([]byte(fmt.Sprint(rf.Tape) + rf.Signature))
-	name := fmt.Sprintf("%s/%s-%d-%s.json", dir, rf.Property, rf.Seed, hex.EncodeToString(h[:4]))
+	name := fmt.Sprintf("%s/%s-%d-w%d-%s.json", dir, rf.Property, rf.Seed, rf.Worker, hex.EncodeToString(h[:4]))
 	b, _ := json.MarshalIndent(rf, "", " ")
-	_ = os.WriteFile(name, b, 0o644)
+	tmp := name + ".tmp"
+	_ = os.WriteFile(tmp, b, 0o644)
+	_ = os.Rename(tmp, name) // atomic: the driver may kill this process at any moment
 	return name
 }
 
